@@ -8,6 +8,8 @@ import ScsiVerif.Model.Attach
 import ScsiVerif.Model.Sense
 import ScsiVerif.Model.Exec
 import ScsiVerif.Model.Handle
+import ScsiVerif.Model.Enum
+import ScsiVerif.Model.InitDevice
 import ScsiVerif.Std.Sense
 import ScsiVerif.Gen.Commands
 import ScsiVerif.Gen.Opcodes
@@ -182,6 +184,45 @@ def cmdOp (toks : List String) : Option String :=
     pure ("ok " ++ ",".intercalate (obs.map so) ++ " " ++
       ",".intercalate (w.handles.map (fun h => toString h.ino ++ "/" ++ (if h.isOpen then "1" else "0") ++ "/" ++ toString h.closeCalls)) ++
       " cur=" ++ toString w.cur)
+  -- enumworld <init0|init1|…> <op;op;…>   values are opaque tokens compared by equality
+  | ["enumworld", inits, ops] => do
+    let parseItems : String → Option (EnumM.E String) := fun s =>
+      (splitOn s ",").mapM (fun kv => match kv.splitOn "=" with | [k, v] => some (k, v) | _ => none)
+    let w0 ← (inits.splitOn "|").mapM parseItems
+    let rec go (fuel : Nat) (w : List (EnumM.E String)) (ops : List String) (acc : List String) : List String :=
+      match fuel, ops with
+      | 0, _ => acc.reverse
+      | _, [] => acc.reverse
+      | f + 1, o :: rest =>
+        match o.splitOn ":" with
+        | ["a", i, k, v] =>
+          let i := i.toNat!
+          (match w[i]? with
+           | some e => (match EnumM.add e k v with
+             | .ok _ => go f (EnumM.stepAt w i (.add k v)) rest ("ok" :: acc)
+             | .error x => go f w rest (x.name :: acc))
+           | none => go f w rest ("bad" :: acc))
+        | ["r", i, k] =>
+          let i := i.toNat!
+          (match w[i]? with
+           | some e => (match EnumM.remove e k with
+             | .ok _ => go f (EnumM.stepAt w i (.remove k)) rest ("ok" :: acc)
+             | .error x => go f w rest (x.name :: acc))
+           | none => go f w rest ("bad" :: acc))
+        | ["g", i, k] => go f w rest (((w[i.toNat!]?.bind (fun e => EnumM.lookup e k)).getD "AttributeError") :: acc)
+        | ["v", i, v] => go f w rest (("rev=" ++ (w[i.toNat!]?.map (fun e => EnumM.rev e v)).getD "bad") :: acc)
+        | ["k", i] => go f w rest (("keys=" ++ ",".intercalate ((w[i.toNat!]?.map EnumM.keys).getD [])) :: acc)
+        | _ => go f w rest ("bad-op" :: acc)
+    pure ("ok " ++ ";".intercalate (go 100000 w0 (splitOn ops ";") []))
+  -- initdev <dev hex> <sgio 0|1> <iscsi 0|1> <rw 0|1> <initiator hex>
+  | ["initdev", dev, sg, isc, rw, ini] => do
+    let toChars : String → Option (List Char) := fun h => (parseBytes h).map (fun b => b.map Char.ofNat)
+    let d ← toChars dev
+    let i ← toChars ini
+    let (r, eff) := InitDevice.initDevice d (sg == "1") (isc == "1") (rw == "1") i
+    let sc : List Char → String := fun l => showBytes (l.map Char.toNat)
+    pure ("ok " ++ (match r with | .refused => "refused" | .scsiDevice p => "scsi:" ++ sc p | .iscsiDevice u => "iscsi:" ++ sc u) ++ " " ++
+      ",".intercalate (eff.map (fun | .openFile p m => "open:" ++ sc p ++ ":" ++ m | .connect u n => "connect:" ++ sc u ++ ":" ++ sc n)))
   | ["t10op", name] => pure (match Std.lookup Std.t10Opcodes name with | some v => "ok " ++ toString v | none => "none")
   | ["t10sa", name] => pure (match Std.lookup Std.t10ServiceActions name with | some v => "ok " ++ toString v | none => "none")
   | ["samstatus", name] => pure (match Std.lookup Std.samStatus name with | some v => "ok " ++ toString v | none => "none")
